@@ -85,7 +85,10 @@ func (b *payPerInterval) OnUpdate(node store.Node, peers []store.Node) (store.Ba
 
 	total := new(big.Int)
 	for _, peer := range peers {
-		b.Store.AddNodeBalance(peer.ID, credit)
+		if err := b.Store.AddNodeBalance(peer.ID, credit); err != nil {
+			// Only charge the client for credit that was actually given.
+			continue
+		}
 		total.Add(total, credit)
 	}
 
